@@ -1,9 +1,13 @@
 /-
-  C03 — generated equality.  Mirrors `_make_eq_script`, `__ne__` (src/attr/_make.py) and the
-  per-field part of `_determine_attrib_eq_order`, plus the fragment of CPython's `==`/`!=`
-  dispatch that the property talks about (NotImplemented on both sides ⇒ identity).
-  Values are scripted: the outcome of every `==` between two field values is part of the case,
-  so results are parametric in the data.
+  C03 — generated equality.  Mirrors `_make_eq_script`, `__ne__`, `_ClassBuilder.add_eq` (both names are
+  written into the class dict), the equality half of `_determine_whether_to_implement` as called from
+  `attrs()` and the per-field part of `_determine_attrib_eq_order` (src/attr/_make.py), plus the fragment of
+  CPython the property talks about: attribute lookup of `__eq__`/`__ne__` along an MRO, `object.__ne__`
+  deriving from the resolved `__eq__`, and the `==`/`!=` dispatch (subclass-first, left, reflected, identity).
+  Values are scripted: the outcome of every `==` between two field values is part of the case, so results
+  are parametric in the data.  Class facts (what the class body, each ancestor, the subclass and the foreign
+  operand's class define under `__eq__`/`__ne__`) are part of the case too; so is the hashing history of the
+  operands, which nothing here ever reads.
 -/
 import AttrsModel.Core
 
@@ -13,6 +17,11 @@ open Lean
 /-- A per-field `eq=` / `cmp=` argument as written: not passed / True / False / a key callable. -/
 inductive EqArg where
   | unset | t | f | key
+  deriving DecidableEq, Repr, FromJson, ToJson, Inhabited
+
+/-- A three-state keyword (`hash=` of a field, class-level `eq=` after `cmp=` was merged in). -/
+inductive Flag where
+  | unset | t | f
   deriving DecidableEq, Repr, FromJson, ToJson, Inhabited
 
 structure Field where
@@ -25,6 +34,10 @@ structure Field where
   keyed : Outcome
   /-- the two field values are the very same object (must not matter) -/
   sameObj : Bool
+  /-- per-field `hash=` argument (decides only whether the value enters `__hash__`) -/
+  hash : Flag
+  /-- the two field values have different hash codes (whatever `==` says) -/
+  hashDiffers : Bool
   deriving DecidableEq, Repr, FromJson, ToJson, Inhabited
 
 /-- What the right operand is, relative to the left operand `x : C`. -/
@@ -32,13 +45,54 @@ inductive Rhs where
   | same       -- another instance of exactly C
   | identical  -- x itself
   | sub        -- instance of a (plain or attrs) subclass of C
-  | super      -- instance of a base class of C
+  | super      -- instance of the nearest base class of C (`object()` if C has no other base)
   | foreign    -- instance of an unrelated class
+  deriving DecidableEq, Repr, FromJson, ToJson, Inhabited
+
+/-- What one class body holds under the name `__eq__` (or `__ne__`). -/
+inductive Slot where
+  | absent
+  | generated            -- put there by attrs for that very class
+  | user (o : Outcome)   -- hand-written, or a builtin's: answers `o` for the operands of this case
+  deriving DecidableEq, Repr, FromJson, ToJson, Inhabited
+
+def Slot.present : Slot → Bool
+  | .absent => false
+  | _ => true
+
+structure Layer where
+  eq : Slot
+  ne : Slot
+  deriving DecidableEq, Repr, FromJson, ToJson, Inhabited
+
+/-- What happened to the operands before they are compared. -/
+structure Hist where
+  /-- the class was built with `cache_hash=True` -/
+  cacheHash : Bool
+  /-- `hash(x)` / `hash(y)` was taken (and cached) before the comparison -/
+  hashedX : Bool
+  hashedY : Bool
+  /-- fields of x / y that were re-assigned after hashing (the case's outcomes are those of the final values) -/
+  reassignedX : List String
+  reassignedY : List String
   deriving DecidableEq, Repr, FromJson, ToJson, Inhabited
 
 structure Case where
   fields : List Field
   rhs    : Rhs
+  /-- class-level `eq=` (with `cmp=` merged in, as `_determine_attrs_eq_order` does) -/
+  clsEq  : Flag
+  /-- effective `auto_detect` (False for `attr.s`, True for `define` unless passed) -/
+  autoDetect : Bool
+  /-- what the body of C itself defines, before attrs touches it -/
+  own    : Layer
+  /-- C's proper ancestors, nearest first, `object` left out -/
+  ancestors : List Layer
+  /-- the body of the subclass whose instance is the operand when `rhs = sub` (after its decorator, if any) -/
+  subLayer : Layer
+  /-- the class of the operand when `rhs = foreign` -/
+  foreignLayer : Layer
+  hist   : Hist
   deriving DecidableEq, Repr, FromJson, ToJson, Inhabited
 
 /-- Result of a comparison method or operator. -/
@@ -61,8 +115,10 @@ structure Obs where
   neDirect : Res           -- C.__ne__(x, y)
   eqOp     : Res           -- x == y
   neOp     : Res           -- x != y
-  /-- comparisons performed by `C.__eq__(x, y)`, in order: `f` (raw) or `f:key` -/
+  /-- comparisons of field values performed by `C.__eq__(x, y)`, in order: `f` (raw) or `f:key` -/
   trace    : List String
+  /-- the same for `C.__ne__(x, y)` -/
+  neTrace  : List String
   deriving DecidableEq, Repr, FromJson, ToJson, Inhabited
 
 /-! ### `_determine_attrib_eq_order`, equality half (default_eq = True) -/
@@ -101,30 +157,100 @@ def sameClass : Rhs → Bool
   | .same | .identical => true
   | _ => false
 
-/-- generated `__eq__` -/
-def eqMethod (c : Case) : Res × List String :=
-  if sameClass c.rhs then chain (c.fields.filter participates) else (.NI, [])
+/-! ### which methods the classes involved resolve -/
 
-/-- module-level `__ne__` -/
-def neMethod (c : Case) : Res :=
-  match (eqMethod c).1 with
+/-- `_determine_whether_to_implement(cls, eq_, auto_detect, ("__eq__", "__ne__"))` (exceptions with
+    `auto_exc` are not part of this model): does attrs generate equality for C? -/
+def generates (c : Case) : Bool :=
+  match c.clsEq with
+  | .t => true
+  | .f => false
+  | .unset => !(c.autoDetect && (c.own.eq.present || c.own.ne.present))
+
+/-- `add_eq`: BOTH names are written into C's dict, over whatever the body held. -/
+def classLayer (c : Case) : Layer :=
+  if generates c then { eq := .generated, ne := .generated } else c.own
+
+def mroC (c : Case) : List Layer := classLayer c :: c.ancestors
+
+/-- attribute lookup along an MRO: the first class that has the name; `absent` means `object`'s. -/
+def lookupEq : List Layer → Slot
+  | [] => .absent
+  | l :: rest => match l.eq with
+    | .absent => lookupEq rest
+    | s => s
+
+def lookupNe : List Layer → Slot
+  | [] => .absent
+  | l :: rest => match l.ne with
+    | .absent => lookupNe rest
+    | s => s
+
+/-- the MRO (without `object`) of the right operand's class -/
+def rhsMro (c : Case) : List Layer :=
+  match c.rhs with
+  | .same | .identical => mroC c
+  | .sub => c.subLayer :: mroC c
+  | .super => c.ancestors
+  | .foreign => [c.foreignLayer]
+
+/-- `C.__eq__(x, y)`.  (A generated method found further up than C itself only happens when attrs does not
+    generate equality for C — outside `wf` — and would compare that ancestor's fields only.) -/
+def eqMethod (c : Case) : Res × List String :=
+  match lookupEq (mroC c) with
+  | .generated => if sameClass c.rhs then chain (c.fields.filter participates) else (.NI, [])
+  | .user o => (Res.ofOutcome o, [])
+  | .absent => (if c.rhs == .identical then .T else .NI, [])
+
+/-- what attrs' shared `__ne__` helper and `object.__ne__` both do with the result of the resolved `__eq__` -/
+def derive : Res → Res
   | .NI => .NI
   | r => Res.ofBool (!r.isTruthy)
 
-/-- `x == y`: left method, reflected method (same answer here: every class involved either has an
-    attrs `__eq__` with the same class test or `object.__eq__`), then identity. -/
+/-- `C.__ne__(x, y)`: the helper calls `self.__eq__(other)`, i.e. what `type(x)` resolves. -/
+def neMethod (c : Case) : Res × List String :=
+  match lookupNe (mroC c) with
+  | .user o => (Res.ofOutcome o, [])
+  | _ => (derive (eqMethod c).1, (eqMethod c).2)
+
+/-- `type(y).__eq__(y, x)` for an operand y of another class: a hand-written method answers; a method
+    generated for another class fails its class test; `object`'s declines (y is not x). -/
+def reflEq (c : Case) : Res :=
+  match lookupEq (rhsMro c) with
+  | .user o => Res.ofOutcome o
+  | _ => .NI
+
+/-- `type(y).__ne__(y, x)` for an operand y of another class -/
+def reflNe (c : Case) : Res :=
+  match lookupNe (rhsMro c) with
+  | .user o => Res.ofOutcome o
+  | _ => derive (reflEq c)
+
+/-- CPython's `do_richcompare`: the reflected method first when the right operand's class is a proper
+    subclass of the left one's, then the left method, then the reflected one, then the default. -/
+def dispatch (subFirst : Bool) (l r dflt : Res) : Res :=
+  let a := if subFirst then r else l
+  let b := if subFirst then l else r
+  match a with
+  | .NI => (match b with | .NI => dflt | v => v)
+  | v => v
+
 def eqOp (c : Case) : Res :=
-  match (eqMethod c).1 with
-  | .NI => Res.ofBool (c.rhs == .identical)
-  | r => r
+  if sameClass c.rhs then
+    match (eqMethod c).1 with
+    | .NI => Res.ofBool (c.rhs == .identical)
+    | r => r
+  else dispatch (c.rhs == .sub) (eqMethod c).1 (reflEq c) .F
 
 def neOp (c : Case) : Res :=
-  match neMethod c with
-  | .NI => Res.ofBool (!(c.rhs == .identical))
-  | r => r
+  if sameClass c.rhs then
+    match (neMethod c).1 with
+    | .NI => Res.ofBool (!(c.rhs == .identical))
+    | r => r
+  else dispatch (c.rhs == .sub) (neMethod c).1 (reflNe c) .T
 
 def model (c : Case) : Obs :=
-  { eqDirect := (eqMethod c).1, neDirect := neMethod c, eqOp := eqOp c, neOp := neOp c,
-    trace := (eqMethod c).2 }
+  { eqDirect := (eqMethod c).1, neDirect := (neMethod c).1, eqOp := eqOp c, neOp := neOp c,
+    trace := (eqMethod c).2, neTrace := (neMethod c).2 }
 
 end Attrs.C03
